@@ -45,7 +45,7 @@ ASSUMPTIONS = [
     "values come from a domain whose round-trip identity holds on the pinned tree; text outputs are compared through the library's own str()/repr() of the source values",
 ]
 EXPECTED_PROBES = ["faulty-first", "faulty-last", "faulty-between", "all-faulty", "truncated-nonempty-prefix", "skip-spans-source-boundary", "count-reached-before-failing-source",
-                   "split-multiple-of-limit", "zero-records-with-writer", "stdin-source", "read-error-source", "multi-timestamp-expanded", "same-name-different-fields", "grouped-record-source", "corrupt-compressed-source"]  # fmt: skip
+                   "split-multiple-of-limit", "zero-records-with-writer", "stdin-source", "read-error-source", "multi-timestamp-expanded", "same-name-different-fields", "grouped-record-source", "corrupt-compressed-source", "pipe-source"]  # fmt: skip
 
 UTC = _dt.timezone.utc
 G = _dt.datetime(2030, 1, 1, tzinfo=UTC)
@@ -101,9 +101,9 @@ def gen_rec(rng, i, only=None):
     t = lambda h: {"$dt": (G + _dt.timedelta(hours=h)).replace(tzinfo=None).isoformat(), "off": 0}  # noqa: E731
     n = rng.choice([0, 1, 2, 3, 4])  # never None: ordering comparisons with None are selector semantics (C07), not slicing
     if k == "A":
-        vals = [rng.choice(["x", "y", "z"]), n if n is not None else 1, t(i)]
+        vals = [rng.choice(["x", "y", "z", "-rf /tmp/x", "=SUM(A1:A9)"]), n if n is not None else 1, t(i)]
     elif k == "B":
-        vals = [n, rng.choice(["x", "q"])]
+        vals = [n, rng.choice(["x", "q", "+31 6", "@reboot"])]
     elif k == "C":
         vals = [rng.choice(["x", "y"]), t(0), t(24 + i)]
     elif k == "A2":
@@ -134,6 +134,8 @@ def gen_source(rng, kind, idx, tier="quick", only=None):
         src["recs"] = [gen_rec(rng, i, only) for i in range(n if kind == "good" or n else 3)]
         src["codec"] = rng.choice(["none", "none", "gz", "bz2", "lz4", "zst"]) if kind in ("good", "stdin") else rng.choice(["none", "none", "gz"])
         src["neutral"] = rng.random() < 0.25 and kind != "stdin"
+        if kind == "good" and rng.random() < 0.12:
+            src["fifo"] = True
         if kind == "trunc":
             src["cut"] = {"where": rng.choice(["in-header", "in-first-desc", "mid-record", "on-boundary", "random", "in-trailer"]), "frac": rng.random()}
         if kind == "readerr":
@@ -377,7 +379,13 @@ def build_source(w, src, descs):
     name = (base + ".bin") if src.get("neutral") else (base + ".records" + EXT[codec])
     blob = compress(codec, data)
     if kind == "good":
-        w.fs.put(name, blob)
+        if src.get("fifo"):
+            name = base + ".fd"  # e.g. rdump a <(zcat b.gz) c: a pipe, not a regular file
+            w.fs.put_fifo(name, blob)
+            w.fs.read_plans[name] = HandlePlan(delivery=[4096, 5, 4096], tail="whole")
+            w.probe("pipe-source")
+        else:
+            w.fs.put(name, blob)
         return name, recs
     if kind == "trunc":
         where = src["cut"]["where"]
